@@ -515,5 +515,8 @@ def run(chk):
     # the long tasks first
     tasks.sort(key=lambda t: (0 if t[0].startswith("miniball-polyhedron") and t[0].endswith("...") else 1 if t[0] == "lstsq" else 2))
     chk.run_parallel(tasks)
+    from .common import inherits
+    inherits(chk, shapes, "ConvexPolygon", "Polygon", ["minimal_bounding_circle", "circumcircle", "incircle"], "coxeter.shapes.polygon")
+    inherits(chk, shapes, "ConvexPolyhedron", "Polyhedron", ["minimal_bounding_sphere", "circumsphere", "insphere"], "coxeter.shapes.polyhedron")
     from .bounded_c13 import run_bounded
     run_bounded(chk)
